@@ -200,3 +200,92 @@ Proof.
   pose proof (TcpRecvBase.l_len_nonneg bytes).
   repeat split; try lia; try reflexivity; exact C.
 Qed.
+
+(* ---------------------------------------------------------------------------------------- *)
+(* NI holds initially, hence in every state reached from net_init                            *)
+(* ---------------------------------------------------------------------------------------- *)
+Theorem NI_run evs : forall st st', NI st -> net_run st evs = Ok st' -> NI st'.
+Proof.
+  induction evs as [|ev r IH]; intros st st' HN H; cbn [net_run] in H.
+  - inversion H; subst. exact HN.
+  - apply obind_ok in H. destruct H as (st1 & H1 & H2). eapply IH; [|exact H2]. eapply NI_step; eassumption.
+Qed.
+
+Definition ep_inv0 (e : endpoint) : Prop := ep_inv e /\ s_ack_delay_timer (ep_sock e) = ADIdle.
+
+Lemma reset_delack s : s_ack_delay_timer (tcp_reset s) = ADIdle.
+Proof. unfold tcp_reset. sproj. reflexivity. Qed.
+
+Lemma ep_step_inv0 e ev e' :
+  match ev with
+  | EvSetTimeout _ | EvSetKeepAlive _ | EvSetAckDelay _ | EvSetNagle _ | EvSetHopLimit _
+  | EvListen _ | EvConnect _ _ _ => True
+  | _ => False
+  end ->
+  ep_inv0 e -> ep_step e ev = Ok e' -> ep_inv0 e'.
+Proof.
+  intros Hev ((Hcx & Hnow & Ht & Hd) & Hi) H.
+  destruct (ep_step_spec _ _ _ H) as (s' & out & tags & Hs & Hk & Hc & _).
+  assert (Hevok : ev_ok ev) by (destruct ev; try contradiction; exact I).
+  assert (Hn2 : 0 <= cx_now (ep_cx e) <= cx_now (ep_cx e)) by lia.
+  pose proof (step_timed_inv (cx_now (ep_cx e)) _ _ _ _ _ _ Hn2 Hcx Hevok Ht Hs) as Ht'.
+  assert (Hi' : s_ack_delay_timer s' = ADIdle).
+  { destruct ev; try contradiction; cbn [tcp_step] in Hs.
+    - destruct (tcp_listen (ep_sock e) ep) as [s1|err|] eqn:E; [| |discriminate].
+      + assert (E1 : s1 = s') by (inversion Hs; reflexivity). subst s1.
+        unfold tcp_listen in E. destruct (le_port ep =? 0); [discriminate|].
+        destruct (tcp_is_open (ep_sock e)).
+        * destruct (tcp_state_eqb _ _ && _); inversion E; subst; exact Hi.
+        * inversion E; subst. pose proof (reset_delack (ep_sock e)) as R. revert R.
+          generalize (tcp_reset (ep_sock e)). intros q R. sproj. exact R.
+      + assert (E1 : s' = ep_sock e) by (inversion Hs; reflexivity). rewrite E1. exact Hi.
+    - destruct (tcp_connect (ep_cx e) (ep_sock e) remote_addr remote_port local) as [s1|err|] eqn:E; [| |discriminate].
+      + assert (E1 : s1 = s') by (inversion Hs; reflexivity). subst s1.
+        unfold tcp_connect in E. destruct (tcp_is_open (ep_sock e)); [discriminate|].
+        destruct ((remote_port =? 0) || (remote_addr =? 0)); [discriminate|].
+        destruct (le_port local =? 0); [discriminate|].
+        obind_inv E. inversion E; subst. pose proof (reset_delack (ep_sock e)) as R. revert R.
+        generalize (tcp_reset (ep_sock e)). intros q R. sproj. exact R.
+      + assert (E1 : s' = ep_sock e) by (inversion Hs; reflexivity). rewrite E1. exact Hi.
+    - inversion Hs; subst. unfold tcp_set_timeout. sproj. exact Hi.
+    - inversion Hs; subst. unfold tcp_set_keep_alive. destruct (is_some d); sproj; exact Hi.
+    - inversion Hs; subst. unfold tcp_set_ack_delay. sproj. exact Hi.
+    - inversion Hs; subst. unfold tcp_set_nagle_enabled. sproj. exact Hi.
+    - obind_inv Hs. inversion Hs; subst. unfold tcp_set_hop_limit in E.
+      destruct h as [[|hp|hn]|]; inversion E; subst; sproj; exact Hi. }
+  split; [|rewrite Hk; exact Hi'].
+  unfold ep_inv. rewrite Hc, Hk. split; [exact Hcx|]. split; [exact Hnow|]. split; [exact Ht'|].
+  unfold delack_bounded. rewrite Hi'. exact I.
+Qed.
+
+Lemma ep_create_inv0 c e :
+  cc_ok (c_cc c) -> 0 <= c_now c -> ep_create c = Ok e -> ep_inv0 e.
+Proof.
+  intros Hcc Hnow H. apply (ep_create_ind ep_inv0 c e); [| |exact H].
+  - intros s Hs. pose proof (new_inv _ _ _ _ _ Hcc Hs) as I.
+    assert (Ht : s_timer s = timer_new /\ s_ack_delay_timer s = ADIdle).
+    { unfold tcp_new in Hs. destruct (rb_cap (rb_new (c_rx_storage c)) >? 2 ^ 30); [discriminate|].
+      inversion Hs; subst. cbn. auto. }
+    destruct Ht as (Ht & Hd).
+    split; [|exact Hd]. unfold ep_inv. cbn [ep_cx ep_sock cfg_ctx cx_now].
+    split; [unfold ctx_ok, u32; cbn [cx_isn]; apply Z.mod_pos_bound; reflexivity|].
+    split; [exact Hnow|]. split; [split; [exact I | rewrite Ht; exact Logic.I]|].
+    unfold delack_bounded. rewrite Hd. exact Logic.I.
+  - intros e0 ev e1 P0 H1. destruct ev; try exact Logic.I;
+      match type of H1 with ep_step _ ?v = _ => apply (ep_step_inv0 e0 v e1 Logic.I P0 H1) end.
+Qed.
+
+Theorem NI_init ca cb st :
+  cc_ok (c_cc ca) -> cc_ok (c_cc cb) -> 0 <= c_now ca -> 0 <= c_now cb ->
+  net_init ca cb = Ok st -> NI st.
+Proof.
+  intros Ha Hb Hna Hnb H. unfold net_init in H.
+  apply obind_ok in H. destruct H as (a & H1 & H).
+  apply obind_ok in H. destruct H as (b & H2 & H).
+  apply obind_ok in H. destruct H as (b' & H3 & H).
+  apply obind_ok in H. destruct H as (a' & H4 & H).
+  inversion H; subst st; clear H.
+  pose proof (ep_step_inv0 b (EvListen (mkListenEp None (c_port cb))) b' Logic.I (ep_create_inv0 _ _ Hb Hnb H2) H3) as (Pb & _).
+  pose proof (ep_step_inv0 a (EvConnect (c_addr cb) (c_port cb) (mkListenEp None (c_port ca))) a' Logic.I (ep_create_inv0 _ _ Ha Hna H1) H4) as (Pa & _).
+  intros [|]; cbn [net_get n_a n_b]; assumption.
+Qed.
